@@ -45,7 +45,7 @@ def relevant(prop, rec, res):
 
 
 T_ENG = "both engines are verified to refine EngineSpec (contracts/engine_spec.py) for every argument-shape configuration the element layer produces"
-T_VIEW = "the element layer is verified against the ghost view of Network lookups (contracts/ghost.py). What origins, origins_by_node, destinations, destinations_by_node, nodes_by_link and elements return is proved from their real bodies on a symbolic graph (contracts/views_content_tasks.py: present iff such a node/edge exists, with that value; uses validity condition (1)); the per-node views in_links(n)/out_links(n) are verified to ask networkx for the edges at n with data='link' - that networkx then lists exactly the edges entering/leaving n is the assumed library contract; identifying the ghost functions with these results is a hand step"
+T_VIEW = "the element layer is verified against the ghost view of Network lookups (contracts/ghost.py). What origins, origins_by_node, destinations, destinations_by_node, nodes_by_link and elements return is proved from their real bodies on a symbolic graph (contracts/views_content_tasks.py: present iff such a node/edge exists, with that value; uses validity condition (1)); the per-node views in_links(n)/out_links(n) are verified to ask networkx for the edges at n with data='link' - that networkx then lists exactly the edges entering/leaving n is the assumed library contract; the ghost view's facts about origins/destinations (GhostNet.node_facts/origin_facts/dest_facts and the answers of the four origin/destination lookups) are derived as obligations from these results with `x in net := x in Network.origins`, `node_of(x) := Network.origins[x]` (ghost view refinement tasks); link_in_net/up/down are by definition membership and value of nodes_by_link, and how the per-node edge enumerations relate to the edge list is the assumed networkx contract"
 
 T_FUN = "casadi.Function: raises unless its inputs are stacks of distinct symbols and no output symbol is free; calling it substitutes arguments for input symbols (assumed contract, pyvc/libmodels/casadi_model.py)"
 T_SPINE = "only on five fixed element lists (spines, 3-8 elements; reported as obligations on bounded input families): the order of the per-name groups at compact >= 1 (order of first occurrence) and the acceptance test of casadi.Function itself (inputs purely symbolic and distinct, no free symbol)"
